@@ -11,7 +11,7 @@ use crate::Result;
 use log::trace;
 
 use crate::block::{Block, BlockRet};
-use crate::stream::{ReadStream, WriteStream};
+use crate::stream::{ReadStream, Tag, WriteStream};
 use crate::{Complex, Float};
 
 /// FFT engine.
@@ -196,6 +196,8 @@ pub mod rr_rustfft {
 #[rustradio(crate)]
 pub struct FftFilter<T: Engine> {
     buf: Vec<Complex>,
+    // Tags of the samples in `buf`, positions relative to `buf`.
+    buf_tags: Vec<Tag>,
     nsamples: usize,
     fft_size: usize,
     tail: Vec<Complex>,
@@ -248,6 +250,7 @@ impl<T: Engine> FftFilter<T> {
                 tail: vec![Complex::default(); engine.tap_len()],
                 engine,
                 buf: Vec::with_capacity(fft_size),
+                buf_tags: Vec::new(),
                 nsamples,
             },
             dr,
@@ -275,6 +278,14 @@ impl<T: Engine> Block for FftFilter<T> {
             let (input, tags) = self.src.read_buf()?;
             // Read so that self.buf contains exactly self.nsamples samples.
             let add = std::cmp::min(input.len(), self.nsamples - self.buf.len());
+            // Keep the tags of the samples taken, at their position in the
+            // output block being collected.
+            let base = self.buf.len();
+            self.buf_tags.extend(
+                tags.iter()
+                    .filter(|t| t.pos() < add)
+                    .map(|t| Tag::new(t.pos() + base, t.key(), t.val().clone())),
+            );
             self.buf.extend(input.iter().take(add).copied());
             input.consume(add);
             if self.buf.len() < self.nsamples {
@@ -297,7 +308,8 @@ impl<T: Engine> Block for FftFilter<T> {
             // Output.
             // TODO: needless copy?
             o.fill_from_slice(&self.buf[..self.nsamples]);
-            o.produce(self.nsamples, &tags);
+            o.produce(self.nsamples, &self.buf_tags);
+            self.buf_tags.clear();
 
             // Stash tail.
             for i in 0..self.tail.len() {
